@@ -87,30 +87,31 @@ Shape(def, run) ==
 
 LastBang(run, k) == k >= 1 /\ Delivered(run) = k /\ run.items[k].r = "!"
 
-(* candidate values of a threshold: 0, every limit that was run, and the successor of each *)
-Cands(runs, M) == {0, M + 1} \cup {runs[j].lim : j \in 1..Len(runs)} \cup {runs[j].lim + 1 : j \in 1..Len(runs)}
+(* candidate values of a threshold: the smallest value that fits is the lower bound inherited from the   *)
+(* previous threshold or the successor of a limit that was run                                            *)
+Cands(runs, lo) == {lo} \cup {runs[j].lim + 1 : j \in 1..Len(runs)}
+
+Fits(def, runs, det, i, x) ==
+  LET k == K(def) IN
+  IF i <= k
+  THEN \A j \in 1..Len(runs) : /\ i <= Delivered(runs[j]) => x <= runs[j].lim
+                               /\ i = Delivered(runs[j]) + 1 => x > runs[j].lim
+  ELSE IF det THEN TRUE
+  ELSE \A j \in 1..Len(runs) : Delivered(runs[j]) = k =>
+           IF HasExc(runs[j]) THEN x > runs[j].lim ELSE x <= runs[j].lim
+
+RECURSIVE Search(_, _, _, _, _, _, _)
+Search(def, runs, M, h, det, i, prev) ==
+  IF i = K(def) + 2 THEN TRUE
+  ELSE LET lo == IF i <= K(def) THEN Sat(prev + h, M) ELSE prev
+           S == {x \in Cands(runs, lo) : x >= lo /\ Fits(def, runs, det, i, x)}
+       IN S # {} /\ Search(def, runs, M, h, det, i + 1, MinOf(S))
 
 FastExplained(def, runs, M, h) ==
-  LET k == K(def)
-      J == 1..Len(runs)
-      n(j) == Delivered(runs[j])
-      L(j) == runs[j].lim
-      cands == Cands(runs, M)
-  IN /\ \A j \in J : Shape(def, runs[j])
-     /\ \E det \in Dets(def) :
-          /\ \A j \in J : n(j) = k => (LastBang(runs[j], k) <=> det)
-          /\ LET Fits(i, x) ==
-                   IF i <= k
-                   THEN \A j \in J : /\ i <= n(j) => x <= L(j)
-                                     /\ i = n(j) + 1 => x > L(j)
-                   ELSE det \/ \A j \in J : n(j) = k =>
-                                 IF HasExc(runs[j]) THEN x > L(j) ELSE x <= L(j)
-                 Search[i \in 1..(k + 2), prev \in cands \cup {0}] ==
-                   IF i = k + 2 THEN TRUE
-                   ELSE LET lo == IF i <= k THEN Sat(prev + h, M) ELSE prev
-                            S == {x \in cands \cup {lo} : x >= lo /\ Fits(i, x)}
-                        IN S # {} /\ Search[i + 1, MinOf(S)]
-             IN Search[1, 0]
+  /\ \A j \in 1..Len(runs) : Shape(def, runs[j])
+  /\ \E det \in Dets(def) :
+       /\ \A j \in 1..Len(runs) : Delivered(runs[j]) = K(def) => (LastBang(runs[j], K(def)) <=> det)
+       /\ Search(def, runs, M, h, det, 1, 0)
 
 (* ---- diagnosis of a goal's runs (the verdict "ok" is FastExplained) ---- *)
 Verdict(def, runs, M, h) ==
